@@ -120,8 +120,11 @@ Definition maxDur (ps : list part) (acc : Z) : Z :=
 Definition maxDurSegs (segs : list (option (list part))) (acc : Z) : Z :=
   fold_left (fun ret sg => match sg with Some ps => maxDur ps ret | None => ret end) segs acc.
 
-(* time.Millisecond * Duration(math.Ceil(float64(ret)/float64(time.Millisecond))): the
-   float64 quotient is exact enough for ret < 2^53 ns / ... (see level_note); ret >= 0 *)
+(* time.Millisecond * Duration(math.Ceil(float64(ret)/float64(time.Millisecond))), ret >= 0.
+   Modelled as the exact integer ceiling: the float64 quotient is exact on multiples of 1 ms
+   and otherwise off by < 2^-20 ms for ret < 2^33 ms, less than the distance 10^-6 ms of a
+   non-multiple to the next integer, so math.Ceil returns the exact ceiling (trusted, and
+   compared on every run through the part target trace). *)
 Definition ceil_ms (d : Z) : Z := ceil_to millisecond d.
 
 Definition partTargetDuration (segs : list (option (list part))) (nextSegmentParts : list part) : Z :=
